@@ -500,16 +500,42 @@ def r9_header_model(ctx, prog, fi, rule="C20-R9"):
     except hm.GiveUp as e:
         raise AnalysisError("%s: header effects of load_image_band: %s" %
                             (rule, e))
-    good = [o for o in outs if isinstance(o[2], tuple) and len(o[2]) == 2
+    good = [(o, h0, "plain") for o in outs
+            if isinstance(o[2], tuple) and len(o[2]) == 2
             and o[2][0] != "raises"]
-    lo_ = sp.floor(N * i / n)
-    hi_ = sp.floor(N * (i + 1) / n)
-    want = dict(h0)
-    want["NAXIS2"] = hi_ - lo_
-    want["CRPIX2"] = h0["CRPIX2"] - lo_
+    # a compressed auxiliary file: the band is cut from the EXPANDED image,
+    # so the expected header is expand's header with the same two changes
+    if prog.has_func("fits_tools.expand"):
+        hc0 = dict(h0)
+        fS = sp.Symbol("f", integer=True, positive=True)
+        hc0.update({"BN_CFAC": fS,
+                    "BN_NPX1": sp.Symbol("npx1", integer=True, positive=True),
+                    "BN_NPX2": sp.Symbol("npx2", integer=True, positive=True),
+                    "BN_RPX1": sp.Symbol("rpx1", integer=True),
+                    "BN_RPX2": sp.Symbol("rpx2", integer=True)})
+        try:
+            oc = hm.Machine(prog, mod, ("header",), {}).outcomes(
+                fi, hc0, {band: (i, n)})
+            oe = hm.Machine(prog, mod, ("header",), {}).outcomes(
+                prog.func("fits_tools.expand"), hc0)
+        except hm.GiveUp as e:
+            raise AnalysisError("%s: compressed input: %s" % (rule, e))
+        exp_ok = [o for o in oe if not o[0] and not (
+            isinstance(o[2], tuple) and o[2] and o[2][0] == "raises")]
+        if exp_ok:
+            base = exp_ok[0][1]
+            good += [(o, base, "compressed") for o in oc
+                     if isinstance(o[2], tuple) and len(o[2]) == 2
+                     and o[2][0] != "raises"]
     nchk = 0
     seen = set()
-    for o in good:
+    for o, hbase, kind_ in good:
+        Nb = hbase["NAXIS2"]
+        lo_ = sp.floor(Nb * i / n)
+        hi_ = sp.floor(Nb * (i + 1) / n)
+        want = {k: hbase.get(k) for k in keys}
+        want["NAXIS2"] = hi_ - lo_
+        want["CRPIX2"] = hbase["CRPIX2"] - lo_
         he = o[1]
         sig = str(sorted((k, str(v)) for k, v in he.items()))
         if sig in seen:
@@ -520,13 +546,15 @@ def r9_header_model(ctx, prog, fi, rule="C20-R9"):
             v = he.get(k)
             ok = v is not None and v is not hm.OPAQUE and \
                 sp.simplify(sp.sympify(v) - want[k]) == 0
-            ctx.check(rule, fi, "returned header: %s = %s" % (k, v),
+            ctx.check(rule, fi, "returned header (%s input): %s = %s" %
+                      (kind_, k, v),
                       bool(ok), "band %s of %s of an image with N rows must "
                       "carry %s = %s; found %s: the band's pixels are mapped "
                       "to the wrong sky positions / the wrong shape is "
                       "announced" % (i, n, k, want[k], v), node=fi.node)
     ctx.check(rule, fi, "%d successful path(s) of load_image_band "
-              "interpreted" % len(good), bool(good),
+              "interpreted (%s)" % (len(good), sorted({g_[2] for g_ in good})),
+              {g_[2] for g_ in good} >= {"plain", "compressed"},
               "no successful path", node=fi.node)
     ctx.floor(rule, nchk, 9, "header keywords of the returned band")
 
